@@ -144,6 +144,23 @@ pub fn generate(ctx: &mut GenCtx) {
     let mut me = cycle(3, P0);
     me.extend(cycle(3, P0).into_iter().map(|mut q| { q.g = Some(iri(G0)); q }));
     emit_variants(ctx, "multi_graph_edges", &me, var_n + 1);
+    // multi-edges across graphs towards equal-hash siblings + near-twin component, under several enumeration orders
+    {
+        let gsets: [&[Option<&str>]; 2] = [&[Some("tag:g1"), Some("tag:g2")], &[None, Some(G0)]];
+        for k in 2..=(if th { 3 } else { 2 }) {
+            for gs in gsets.iter() {
+                for twist in 0..=3 {
+                    let base = multi_edge_twins(k, gs, twist, twist % 2 == 0, P0);
+                    for (name, v) in enumeration_orders(&base, &mut ctx.rng, if th { 2 } else { 0 }) {
+                        let r = Req { hash: "sha256".into(), df: 1.0, pl: 6, cont: "ord".into(), seed: 0, quads: v };
+                        ctx.stats.bump("family.multi_edge_twins");
+                        ctx.stats.bump(&format!("enumeration.{}", name));
+                        ctx.emit(&r.render());
+                    }
+                }
+            }
+        }
+    }
     // nodes reached by recursion from an earlier hash group: two cycles joined through distinguishable tails
     let mut two = cycle(3, P0);
     two.extend(copies(&cycle(3, P1), 2).into_iter().skip(3));
